@@ -112,6 +112,12 @@ where
 
 /// build the lifecycle table (driver-built: Lifecycle::new + public start_time) and the concrete messages, run the sorter
 fn exec_case(c: &Case) -> (Vec<(i64, u32, bool)>, Outcome) {
+    exec_case_opt(c, false)
+}
+
+/// drop_writer: the table's write handle is dropped before sorting starts (the read handle then yields nothing: every
+/// lifecycle is unknown to the sorter, whatever the table held)
+fn exec_case_opt(c: &Case, drop_writer: bool) -> (Vec<(i64, u32, bool)>, Outcome) {
     let (lcs_r, mut lcs_w) = evmap::new::<LifecycleId, LifecycleItem>();
     let mut real: HashMap<u32, LifecycleId> = HashMap::new();
     for (id, start) in &c.table {
@@ -133,6 +139,10 @@ fn exec_case(c: &Case) -> (Vec<(i64, u32, bool)>, Outcome) {
             build_msg(c, i, m, rl)
         })
         .collect();
+    let mut lcs_w = Some(lcs_w);
+    if drop_writer {
+        drop(lcs_w.take());
+    }
     let r = run_sorter(&input, &lcs_r, c.w, c.d as u64 * c.tick_us);
     drop(lcs_w);
     r
@@ -655,6 +665,17 @@ fn main() {
         write_case(&mut t, case, &c, &obs, &oc, json!({}));
         case += 1;
     }
+    // lifecycle tables whose write handle is gone before sorting starts (logged as an empty table: nothing is known)
+    let n_now = a.num("--nowriter", 0);
+    let mut rng_now = Rng::new(a.num("--seed", 1) ^ 0x0DEAD);
+    for _ in 0..n_now {
+        let mut c = gen_rand(&mut rng_now, max_len.min(60));
+        c.kind = "nowriter";
+        let (obs, oc) = exec_case_opt(&c, true);
+        c.table.clear();
+        write_case(&mut t, case, &c, &obs, &oc, json!({}));
+        case += 1;
+    }
     // sub-tick streams: their own generator stream as well
     let n_sub = a.num("--subtick", 0);
     let mut rng_sub = Rng::new(a.num("--seed", 1) ^ 0x5B_71C);
@@ -694,7 +715,7 @@ fn main() {
     t.flush();
     println!(
         "{}",
-        json!({"cases": case, "lines": t.lines, "replayed": replayed, "fast_path": fast, "slow_path": slow, "drift": drift, "drift_dup_index": drift_dup, "dup": n_dup, "subtick": n_sub, "burst_sizes": burst_sizes,
+        json!({"cases": case, "lines": t.lines, "replayed": replayed, "fast_path": fast, "slow_path": slow, "drift": drift, "drift_dup_index": drift_dup, "dup": n_dup, "subtick": n_sub, "nowriter": n_now, "burst_sizes": burst_sizes,
                "sampled": sampled, "random": n_random, "det": det_done, "det_skipped": det_skipped})
     );
 }
